@@ -391,17 +391,21 @@ theorem live_evolution_gen (env : Env) (init : Algo) (hb : IsBase init) (sz : Op
     | succ m => simp [fedCount]
   · exact fun l e hl => genInv_step env init hb sz l e hl
 
-/-- has the initial population reached its size, judged from the history (`Evolution.recover`) -/
-def doneInit (sz : Option Nat) (h : Hist) : Bool :=
+/-- has the initial population reached its size: the test of the repaired `Evolution.recover` on the
+total number of feedbacks replayed so far (the condition `_feedback` checks on the live path) -/
+def doneInit (sz : Option Nat) (nf : Nat) : Bool :=
   match sz with
-  | some n => decide (n ≤ (h.filter isInitFed).length)
+  | some n => decide (n ≤ nf)
   | none => false
 
 theorem recover_evolution_full (env : Env) (hg : env.q.evoInitGenBump = false) (ho : env.q.evoProposalOrder = false)
+    (hd : env.q.evoInitDonePerCall = false)
     (init : Algo) (hb : IsBase init) (sz : Option Nat) (h : Hist) (hok : ∀ e ∈ h, EntryOk e) :
     ∃ si', recover env (.evolution init sz) (setup (.evolution init sz)) h
-      = .ok (.evolution h.length (popOf env ([], 0) ((fedOf (sortByFeedback h)).map (·.1))).2 si' (doneInit sz h)
-              (if (doneInit sz h && decide ((sortByFeedback h).foldl gStep 0 = 0)) = true then 1
+      = .ok (.evolution h.length (popOf env ([], 0) ((fedOf (sortByFeedback h)).map (·.1))).2 si'
+              (doneInit sz (popOf env ([], 0) ((fedOf (sortByFeedback h)).map (·.1))).2)
+              (if (doneInit sz (popOf env ([], 0) ((fedOf (sortByFeedback h)).map (·.1))).2
+                    && decide ((sortByFeedback h).foldl gStep 0 = 0)) = true then 1
                else (sortByFeedback h).foldl gStep 0)
               (popOf env ([], 0) ((fedOf (sortByFeedback h)).map (·.1))).1 []) := by
   have hloop := evoRecover_loop_full env hg (.evolution init sz) (sortByFeedback h)
@@ -412,23 +416,16 @@ theorem recover_evolution_full (env : Env) (hg : env.q.evoInitGenBump = false) (
     · simp only [recover, setup, baseRecover_random]; exact ⟨_, rfl⟩
   obtain ⟨si', hsi'⟩ := htot
   refine ⟨si', ?_⟩
-  simp only [recover, ho, setup, hloop, hsi', hg, Bool.false_eq_true, ↓reduceIte, length_sortByFeedback, Nat.zero_add,
-    Bool.false_or, Bool.not_false, Bool.and_true, doneInit]
+  simp only [recover, ho, setup, hloop, hsi', hg, hd, Bool.false_eq_true, ↓reduceIte, length_sortByFeedback,
+    Nat.zero_add, Bool.false_or, Bool.not_false, Bool.and_true, doneInit]
   cases sz <;> rfl
 
-theorem doneInit_false_of_lt (sz : Option Nat) (h : Hist) (hlt : ∀ n, sz = some n → fedCount h < n) :
-    doneInit sz h = false := by
+theorem doneInit_false_of_lt (sz : Option Nat) (nf : Nat) (hlt : ∀ n, sz = some n → nf < n) :
+    doneInit sz nf = false := by
   cases sz with
   | none => rfl
   | some n =>
     have h1 := hlt n rfl
-    have h2 : (h.filter isInitFed).length ≤ fedCount h := by
-      unfold fedCount
-      apply List.Sublist.length_le
-      apply List.monotone_filter_right
-      intro e he
-      simp only [isInitFed, Bool.and_eq_true] at he
-      exact he.1
     simp only [doneInit, decide_eq_false_iff_not, Nat.not_le]
     omega
 
